@@ -180,6 +180,11 @@ def counters(run, f):
                         aa = [strip_refs(ctr.norm(x)) for x in ctr.call_args(c[1])]
                         sat = ("param", 2) in aa and any(x[0] == "upvar" for x in aa)
         from_param = _derives_from(tr, vmax, ("param", 2))
+        conv = sorted(_calls_in(tr, vmax))
+        lossy = [c for c in conv if c.split("::")[-1] not in ("as_nanos", "min", "try_from", "try_into", "unwrap_or", "from", "into", "saturating_add", "clamp")]
+        run.require(not lossy and any(c.endswith("as_nanos") for c in conv), "O20.3", "duration-conversion-total",
+                    "the recorded value is computed from the duration through %s: not the total duration in nanoseconds (e.g. whole seconds would be lost)" % (lossy or conv),
+                    "recorded value = duration.as_nanos() (saturated), the total duration")
         run.require(same and sat and from_param, "O20.3", "same-duration-everywhere", "max and total are not updated with the same value derived from the recorded duration (max gets %s)" % show(vmax),
                     "total += nanos (saturating) and max = max(max, nanos) with nanos derived from the duration argument")
 
@@ -197,6 +202,20 @@ def _derives_from(tr, t, leaf, depth=0):
                 if _derives_from(tr, tr.norm(a), leaf, depth + 1):
                     return True
     return False
+
+
+def _calls_in(tr, t, depth=0):
+    """Callee defs of all calls a term depends on (following call arguments)."""
+    from sendpaths import subterms
+    out = set()
+    if depth > 8:
+        return out
+    for x in subterms(t):
+        if x[0] == "call":
+            out.add(x[2])
+            for a in tr.call_args(x[1]):
+                out |= _calls_in(tr, tr.norm(a), depth + 1)
+    return out
 
 
 def shape(tr, t, depth=0):
